@@ -1,4 +1,4 @@
-import CaresModel.Chan.Types
+import CaresModel.Chan.Client
 /-
 Channel model — transitions.  `exec fuel call s` runs one C procedure of the request life cycle to
 completion (including everything it calls, including user callbacks and the API calls those make),
@@ -8,22 +8,6 @@ correspondence runs; theorems hold for every fuel).
 namespace Cares.Chan
 
 /-! ### small helpers -/
-
-def hexLower (h : String) : String :=
-  -- lower-case an ASCII string given as hex pairs
-  let cs := h.toList
-  let rec go : List Char → List Char
-    | a :: b :: r =>
-      -- 0x41..0x5a -> 0x61..0x7a : high nibble 4→6, 5→7 (for 5: only 0x50..0x5a)
-      let lowDigit := b.toNat
-      let isLowOk5 := (b.isDigit) || b == 'a'
-      if a == '4' && !(b == '0') then '6' :: b :: go r
-      else if a == '5' && isLowOk5 then '7' :: b :: go r
-      else
-        let _ := lowDigit
-        a :: b :: go r
-    | r => r
-  String.ofList (go cs)
 
 def hexDigit (n : Nat) : Char := if n < 10 then Char.ofNat (48 + n) else Char.ofNat (87 + n)
 def hexVal (c : Char) : Nat := if c.isDigit then c.toNat - 48 else if c.toNat ≥ 97 then c.toNat - 87 else c.toNat - 55
@@ -63,6 +47,8 @@ def St.tv (s : St) : Cares.Proto.Cookie.TimeVal :=
   { sec := Int.ofNat (100000 + s.now / 1000), usec := (s.now % 1000) * 1000 }
 
 def St.emit (s : St) (e : String) : St := { s with ev := e :: s.ev }
+def St.slog (s : St) (fd : Nat) (call : String) : St := { s with sockLog := s.sockLog ++ [(fd, call)] }
+def St.ofault (s : St) (e : String) : St := { s with obsFaults := s.obsFaults ++ [e] }
 def St.mfault (s : St) (e : String) : St := { s with modelFaults := s.modelFaults ++ [e] }
 
 def St.query? (s : St) (k : Nat) : Option Query := s.qs.find? (·.key == k)
@@ -211,7 +197,8 @@ def St.notify (s : St) (fd : Nat) (r w : Bool) : St :=
   | none => s
   | some c =>
     let s := if c.notR != r || c.notW != w then
-        s.emit s!"st({fd},{if r then 1 else 0},{if w then 1 else 0})" else s
+        { (s.emit s!"st({fd},{if r then 1 else 0},{if w then 1 else 0})") with
+          notifyLog := s.notifyLog ++ [(fd, r, w)] } else s
     s.modConn fd fun c => { c with notR := r, notW := w }
 
 /-! ### by-timeout index -/
@@ -263,18 +250,35 @@ def St.settle (s : St) : St :=
         | some (_, rem) =>
           let v := (Int.ofNat s.now + rem).toNat
           let s := if lo ≤ v && v ≤ hi then s
-                   else s.mfault s!"deadline-out-of-policy(qid={q.qid},{v},[{lo},{hi}])"
+                   else s.ofault s!"deadline-out-of-policy(qid={q.qid},{v},[{lo},{hi}])"
           let s := s.modQuery q.key fun q => { q with deadline := .at v }
           { s with byTimeout := insertByDeadline s.qs q.key v s.byTimeout }
-        | none => s.mfault s!"deadline-unobserved(qid={q.qid})"
+        | none => s.ofault s!"deadline-unobserved(qid={q.qid})"
       | .at ms => { s with byTimeout := insertByDeadline s.qs q.key ms (s.byTimeout.erase q.key) }
       | .none => s) s
   { s with pendingOrder := [] }
 
-/-! ### the query cache as far as the channel needs it (ares_qcache.c; C08 owns the full model) -/
+/-- ares_timeout(channel, maxtv, &tv) in milliseconds: the remaining time of the earliest deadline,
+    capped by the caller's maximum; `none` = no limit (no query outstanding and no maximum given) -/
+def St.timeoutHint (s : St) (maxtv : Option Nat) : Option Nat :=
+  let rem : Option Nat := (s.byTimeout.head?.bind s.query?).bind fun q =>
+    match q.deadline with
+    | .at ms => some (ms - s.now)
+    | _ => none
+  match maxtv, rem with
+  | none, r => r
+  | some m, none => some m
+  | some m, some r => some (min m r)
 
-def stripDot (h : String) : String :=
-  if h.length ≥ 2 && (h.drop (h.length - 2)).toString == "2e" then (h.take (h.length - 2)).toString else h
+/-- read_answers: the next complete message of a TCP connection's in_buf.  `stream` holds the absolute end
+    offset of every message the peer has written, `spos` the bytes read so far, `buffered` the bytes still
+    in in_buf; a message is complete once its last byte has been read. -/
+def nextTcpFrame (stream : List (Nat × Reply)) (spos buffered : Nat) : Option Reply :=
+  match stream.find? (fun (e, _) => e > spos - buffered) with
+  | some (e, r) => if e ≤ spos then some r else none
+  | none => none
+
+/-! ### the query cache as far as the channel needs it (ares_qcache.c; C08 owns the full model) -/
 
 def cacheKeyName (h : String) : String := hexLower (stripDot h)
 
@@ -310,26 +314,7 @@ def St.cacheInsert (s : St) (q : Query) (r : Reply) : St :=
   { s with cache := old ++ [{ name := key, qtype := q.qtype, qclass := q.qclass,
                               rd := q.rd, expire := s.nowSec + ttl, insert := s.nowSec, reply := r }] }
 
-/-! ### callback digest -/
-
-def digest (r : Option Reply) : String :=
-  match r with
-  | none => "-"
-  | some r =>
-    let addrs := (List.range (min r.an 4)).map fun i =>
-      let ttl := (r.ttls.getD i (r.ttls.getLastD 300))
-      s!",10.{r.mark / 256 % 256}.{r.mark % 256}.{i + 1}/{ttl}"
-    s!"rc={r.rcode},an={r.an}" ++ String.join addrs
-
 /-! ### procedures -/
-
-structure ReqSpec where
-  name : String
-  qtype : Nat
-  qclass : Nat := 1
-  rd : Bool := true
-  edns : Bool := false
-  deriving Repr, Inhabited
 
 inductive Call where
   | sendNolock (srv : Option Nat) (nocache noretry : Bool) (spec : ReqSpec) (owner : Owner) (react : List Nat)
@@ -354,8 +339,8 @@ inductive Call where
   | destroy
   | probe (srv : Nat) (key : Nat)
   | clientStart (kind : String) (tok : Nat) (react : List Nat) (spec : ReqSpec)
-  | searchNext (id : Nat)
-  | endClient (id : Nat) (st : Status) (rec : Option Reply)
+  | runActs (id : Nat) (acts : List ClientAct)
+  | userCb (tok : Nat) (react : List Nat) (st : Status) (timeouts : Nat) (dg : String)
   deriving Repr, Inhabited
 
 /-- result of a procedure: the C return status where one is used by the caller -/
@@ -366,11 +351,11 @@ def St.oof (s : St) : St × Ret := ({ s with outOfFuel := true }, .other)
 /-- pop an observed 2-byte draw -/
 def St.draw2 (s : St) : Nat × St :=
   match s.obs.rnd2 with
-  | [] => (0, s.mfault "rnd2-underflow")
+  | [] => (0, s.ofault "rnd2-underflow")
   | x :: r => (x, { s with obs := { s.obs with rnd2 := r } })
 def St.draw1 (s : St) : Nat × St :=
   match s.obs.rnd1 with
-  | [] => (0, s.mfault "rnd1-underflow")
+  | [] => (0, s.ofault "rnd1-underflow")
   | x :: r => (x, { s with obs := { s.obs with rnd1 := r } })
 
 def St.peek8 (s : St) : List UInt8 :=
@@ -379,18 +364,17 @@ def St.peek8 (s : St) : List UInt8 :=
   | x :: _ => hexToBytes x
 def St.pop8 (s : St) : St :=
   match s.obs.rnd8 with
-  | [] => s.mfault "rnd8-underflow"
+  | [] => s.ofault "rnd8-underflow"
   | _ :: r => { s with obs := { s.obs with rnd8 := r } }
 
 /-- generate_unique_qid: keep drawing until the id is not in the table -/
 def genQid : Nat → St → Nat × St
-  | 0, s => (0, s.mfault "qid-loop")
+  | 0, s => (0, s.ofault "qid-loop")
   | n + 1, s =>
-    if s.obs.rnd2.isEmpty then (70000 + s.nextKey, s.mfault "rnd2-underflow") else
+    if s.obs.rnd2.isEmpty then (70000 + s.nextKey, s.ofault "rnd2-underflow") else
     let (id, s) := s.draw2
     if s.byQid.any (·.1 == id) then genQid n s else (id, s)
 
-def nameTextLen (hex : String) : Nat := hex.length / 2
 /-- wire length of a name given as hex of its text form (no escapes in simulator names) -/
 def nameWireLen (hex : String) : Nat :=
   let n := nameTextLen (stripDot hex)
@@ -411,8 +395,8 @@ def St.recordTx (s : St) (fd : Nat) (tcp : Bool) (f : OutFrame) : St :=
     | some (_, nm) => if hexLower nm == hexLower f.name then nm else f.name
     | none => f.name
   let t : Tx := { n := n, fd := fd, tcp := tcp, id := f.qid, name := name, qtype := f.qtype, qclass := f.qclass,
-                  rd := f.rd, edns := f.edns, cookie := f.cookie, len := f.len - 2 }
-  let s := { s with txs := s.txs ++ [t] }
+                  rd := f.rd, edns := f.edns, cookie := f.cookie, len := f.len - 2, key := f.key }
+  let s := ({ s with txs := s.txs ++ [t] }).slog fd "send"
   let s := s.modQuery f.key fun q => if q.qid == f.qid then { q with name := name } else q
   s.emit (txEvent t)
 
@@ -448,673 +432,660 @@ def expired (now : Nat) (d : Deadline) : Bool :=
   | .at ms => now ≥ ms
   | _ => false
 
-def St.userCallback (s : St) (tok : Nat) (st : Status) (timeouts : Nat) (rec : Option Reply) : St :=
+def St.userCallback (s : St) (tok : Nat) (st : Status) (timeouts : Nat) (dg : String) : St :=
   let s := if s.destroyed then s.emit s!"MON:cb-after-destroy({tok})" else s
   let s := if s.doneToks.contains tok then s.emit s!"MON:cb-twice({tok})" else s
   let s := { s with pendingToks := s.pendingToks.erase tok, doneToks := s.doneToks ++ [tok] }
-  s.emit s!"cb({tok},{st.name},to={timeouts},{digest rec})"
+  s.emit s!"cb({tok},{st.name},to={timeouts},{dg})"
 
-/-- ares_dns_query_reply_tostatus -/
-def replyToStatus (rcode an : Nat) : Status :=
-  match rcode with
-  | 0 => if an > 0 then .ok else .nodata
-  | 1 => .formerr
-  | 2 => .servfail
-  | 3 => .notfound
-  | 4 => .notimp
-  | 5 => .refused
-  | _ => .ok
+/-- `sendNolock` with the recursive calls abstracted as `go` -/
+def bodySendNolock (go : Call → St → St × Ret) (reqSrv : Option Nat) (nocache : Bool) (noretry : Bool) (spec : ReqSpec) (owner : Owner) (react : List Nat) (s : St) : St × Ret :=
+  let (qid, s) := genQid 70000 s
+  if s.servers.isEmpty then
+    let (s, _) := go (.callback owner react .noserver 0 none) s
+    (s, .noserver)
+  else
+    let s := if nocache then s else s.cacheExpire
+    match (if nocache then none else s.cacheFetch spec.name spec.qtype spec.qclass spec.rd) with
+    | some e =>
+      let (s, _) := go (.callback owner react .ok 0 (some e.reply)) s
+      (s, .ok)
+    | none =>
+      -- ares_dns_record_duplicate_ex writes and re-parses the request: a name whose escaped text
+      -- form does not fit is reported as EFORMERR through the callback
+      if nameTextLen spec.name > 255 then
+        let (s, _) := go (.callback owner react .formerr 0 none) s
+        (s, .formerr)
+      else
+      let key := s.nextKey
+      let usingTcp := s.cfg.usevc
+      -- ares_apply_dns0x20 draws (len+7)/8 random bytes; only 1- and 2-byte draws are observed
+      let nbytes := (nameTextLen spec.name + 7) / 8
+      let s := if s.cfg.dns0x20 && !usingTcp && nameTextLen spec.name > 0 then
+          (if nbytes == 1 then s.draw1.2 else if nbytes == 2 then s.draw2.2 else s) else s
+      -- the request is duplicated by writing and re-parsing it: a trailing dot does not survive
+      let q : Query := { key := key, qid := qid, owner := owner, react := react, name := normEscapes (stripDot spec.name),
+                         qtype := spec.qtype, qclass := spec.qclass, rd := spec.rd, edns := spec.edns,
+                         usingTcp := usingTcp, noRetries := noretry }
+      let s := { s with nextKey := key + 1, qs := s.qs ++ [q], all := s.all ++ [key],
+                        byQid := s.byQid ++ [(qid, key)] }
+      go (.sendQuery reqSrv key) s
 
-def hexDots (h : String) : Nat :=
-  let rec go : List Char → Nat
-    | a :: b :: r => (if a == '2' && b == 'e' then 1 else 0) + go r
-    | _ => 0
-  go h.toList
+/-- `sendQuery` with the recursive calls abstracted as `go` -/
+def bodySendQuery (go : Call → St → St × Ret) (reqSrv : Option Nat) (key : Nat) (s : St) : St × Ret :=
+  match s.query? key with
+  | none => (s.mfault s!"uaf-query({key}) in ares_send_query", .other)
+  | some q =>
+  -- choose the server
+  let sorted := s.sortedServers
+  let (srv?, s) : Option Server × St :=
+    match reqSrv with
+    | some id => (s.server? id, s)
+    | none =>
+      if s.cfg.rotate then
+        let nbest := countBest sorted
+        if nbest == 0 then (none, s) else
+        let (c, s) := s.draw1
+        (sorted[c % nbest]?, s)
+      else (sorted.head?, s)
+  match srv? with
+  | none => go (.endQuery none key .noserver none) s
+  | some srv =>
+  let s := { s with picks := s.picks ++ [(key, srv.id, reqSrv.isSome, sorted.map fun v => (v.id, v.failures))] }
+  let probeDowned := reqSrv.isNone && srv.failures == 0 && q.tryCount == 0
+  -- ares_fetch_connection
+  let existing : Option Nat :=
+    if q.usingTcp then srv.tcpConn
+    else match srv.conns.head? with
+      | none => none
+      | some fd =>
+        match s.conn? fd with
+        | none => none
+        | some c =>
+          if c.tcp then none
+          else if s.cfg.udpMax > 0 && c.total ≥ s.cfg.udpMax then none
+          else some fd
+  -- ares_open_connection
+  let (connRes, s) : (Except Status Nat) × St :=
+    match existing with
+    | some fd => (.ok fd, s)
+    | none =>
+      let tcp := q.usingTcp
+      let (f, s) := s.fault "socket"
+      match f with
+      | some _ => (.error .connrefused, s.emit s!"sock!({if tcp then "tcp" else "udp"})")
+      | none =>
+        let fd := s.nextFd
+        let wl := if tcp then s.pendingWl else []
+        let s := { s with nextFd := fd + 1,
+                          pendingWl := if tcp then [] else s.pendingWl,
+                          socks := s.socks ++ [({ fd := fd, tcp := tcp, wl := wl } : VSock)] }
+        let s := (s.emit s!"sock({fd},{if tcp then "tcp" else "udp"},4)").slog fd "open"
+        let port := if tcp then srv.tcpPort else srv.udpPort
+        let s := s.modSock fd fun v => { v with peer := srv.addr, port := port }
+        let (f, s) := s.fault "connect"
+        let s := s.slog fd "connect"
+        let connFail := match f with
+          | some e => !isWouldBlock e
+          | none => false
+        let s := match f with
+          | some _ => s.emit s!"conn!({fd},{srv.addr}#{port})"
+          | none => s.emit s!"conn({fd},{srv.addr}#{port})"
+        if connFail then
+          let s := ((s.modSock fd fun v => { v with isOpen := false }).emit s!"close({fd})").slog fd "close"
+          (.error .connrefused, s)
+        else
+          let (f, s) := s.fault "getsockname"
+          match f with
+          | some _ =>
+            let s := ((s.modSock fd fun v => { v with isOpen := false }).emit s!"close({fd})").slog fd "close"
+            (.error .connrefused, s)
+          | none =>
+            let c : Conn := { fd := fd, srv := srv.id, tcp := tcp, selfIp := s.selfVariant }
+            let s := { s with conns := s.conns ++ [c] }
+            let s := s.modServer srv.id fun v =>
+              { v with conns := if tcp then v.conns ++ [fd] else fd :: v.conns,
+                       tcpConn := if tcp then some fd else v.tcpConn }
+            let s := s.notify fd true tcp
+            (.ok fd, s)
+  match connRes with
+  | .error st =>
+    -- ECONNREFUSED / EBADFAMILY are retryable
+    let s := s.incFailures srv.id q.usingTcp
+    go (.requeue key st true none false) s
+  | .ok fd =>
+  -- ares_conn_query_write: ares_cookie_apply first
+  let cTcp := ((s.conn? fd).map (·.tcp)).getD q.usingTcp
+  let cSelf := ((s.conn? fd).map (·.selfIp)).getD 0
+  let srvNow0 := (s.server? srv.id).getD srv
+  let reqOpt : Cares.Proto.Cookie.ReqOpt := if q.edns then some q.reqCookie else none
+  let ao := Cares.Proto.Cookie.apply srvNow0.cookie { selfIp := selfAddr cSelf, tcp := cTcp } s.tv s.peek8 reqOpt
+  let s := if ao.draws > 0 then s.pop8 else s
+  let s := s.modServer srv.id fun v => { v with cookie := ao.ck }
+  let newCk : Option (List UInt8) := ao.req.join
+  let cookie := match newCk with
+    | some b => bytesToHex b
+    | none => "-"
+  let s := s.modQuery key fun q => { q with reqCookie := newCk, cookie := cookie }
+  let q := { q with reqCookie := newCk, cookie := cookie }
+  let frame : OutFrame := { len := frameLen q.name q.edns cookie, key := key, qid := q.qid, name := q.name,
+                            qtype := q.qtype, qclass := q.qclass, rd := q.rd, edns := q.edns, cookie := cookie }
+  let s := s.modConn fd fun c => { c with out := c.out ++ [frame] }
+  let s := { s with writeLog := s.writeLog ++ [key] }
+  let c := (s.conn? fd).getD default
+  let (wst, s) : Status × St :=
+    if c.tcp && !c.connected then (.ok, s)
+    else if s.cfg.pendingWrite && !s.notifyPending && c.tcp then
+      (.ok, ({ s with notifyPending := true }).emit "pendingwrite")
+    else
+      let (s, r) := go (.flush fd) s
+      (r, s)
+  match wst with
+  | .ok =>
+    match s.query? key, s.conn? fd with
+    | some q, some _ =>
+      -- ares_calc_query_timeout
+      let srvNow := (s.server? srv.id).getD srv
+      let timeout := s.serverTimeout srvNow
+      let nsrv := s.servers.length
+      let rounds := q.tryCount / nsrv
+      let timeplus := if rounds > 0 then timeout * 2 ^ rounds else timeout
+      let timeplus := if s.cfg.maxtimeout != 0 && timeplus > s.cfg.maxtimeout then s.cfg.maxtimeout else timeplus
+      let (dl, s) : Deadline × St :=
+        if rounds > 0 then
+          let (_, s) := s.draw2
+          let lo := max timeout (timeplus - timeplus / 2)
+          let hi := max timeout timeplus
+          (.pending (s.now + lo) (s.now + hi), s)
+        else (.at (s.now + max timeplus timeout), s)
+      let s := { s with byTimeout := s.byTimeout.erase key }
+      -- ares_llist_node_destroy(query->node_queries_to_conn): leave whatever list it was still in
+      let s := match q.conn with
+        | some old => s.modConn old fun c => { c with queries := c.queries.erase key }
+        | none => s
+      let s := s.modQuery key fun q => { q with ts := s.now, deadline := dl, conn := some fd, inConnList := true }
+      -- the skip-list insertion is replayed by `settle` at the end of the op, in send order, once the
+      -- jittered values have been observed (entries sent in this op cannot expire within it)
+      let s := { s with pendingOrder := s.pendingOrder.erase key ++ [key] }
+      let s := s.modConn fd fun c => { c with queries := c.queries.erase key ++ [key], total := c.total + 1 }
+      if probeDowned then
+        let (s, _) := go (.probe srv.id key) s
+        (s, .ok)
+      else (s, .ok)
+    | none, _ => (s.mfault s!"uaf-query({key}) after write in ares_send_query", .other)
+    | _, none => (s.mfault s!"uaf-conn({fd}) after write in ares_send_query", .other)
+  | .nomem => go (.endQuery (some srv.id) key .nomem none) s
+  | .connrefused | .badfamily =>
+    let (s, _) := go (.connError fd true wst) s
+    -- the C code goes on to use `query` here whatever the callbacks run by the close did
+    -- the close may have run callbacks that cancelled this query: re-validate through the qid table
+    match (s.byQid.find? (fun (id, k) => id == q.qid && k == key)).bind (fun _ => s.query? key) with
+    | none => (s, .cancelled)
+    | some _ =>
+      let (s, r) := go (.requeue key wst true none false) s
+      (s, if r == .timeout then .connrefused else r)
+  | wst' =>
+    let s := s.incFailures srv.id q.usingTcp
+    go (.requeue key wst' true none false) s
 
-/-- ares_name_label_cnt -/
-def labelCnt (h : String) : Nat := hexDots h + 1
+/-- `probe` with the recursive calls abstracted as `go` -/
+def bodyProbe (go : Call → St → St × Ret) (srvId : Nat) (key : Nat) (s : St) : St × Ret :=
+  match s.query? key with
+  | none => (s, .ok)
+  | some q =>
+  let sorted := s.sortedServers
+  match sorted.getLast? with
+  | none => (s, .ok)
+  | some last =>
+    if last.failures == 0 || s.cfg.retryChance == 0 then (s, .ok) else
+    let (r, s) := s.draw2
+    if r % s.cfg.retryChance != 0 then (s, .ok) else
+    match sorted.find? (fun v => v.failures > 0 && !v.probePending && s.now ≥ v.nextRetry) with
+    | none => (s, .ok)
+    | some pv =>
+      if pv.id == srvId then (s, .ok) else
+      let s := s.modServer pv.id fun v => { v with probePending := true }
+      let (s, _) := go (.sendNolock (some pv.id) true true
+        { name := q.name, qtype := q.qtype, qclass := q.qclass, rd := q.rd, edns := q.edns } .probe []) s
+      (s, .ok)
 
-/-- ares_search_name_list without HOSTALIASES (the simulator never sets it) -/
-def searchNames (c : Cfg) (name : String) : List String :=
-  let endsDot := name.length ≥ 2 && (name.drop (name.length - 2)).toString == "2e"
-  if endsDot || c.nosearch then [name] else
-  let nd := labelCnt name - 1
-  let cat (d : String) : String := name ++ "2e" ++ (if d == "2e" then "" else d)
-  (if nd ≥ c.ndots then [name] else []) ++ c.domains.map cat ++ (if nd < c.ndots then [name] else [])
+/-- `flush` with the recursive calls abstracted as `go` -/
+def bodyFlush (go : Call → St → St × Ret) (fd : Nat) (s : St) : St × Ret :=
+  match s.conn? fd with
+  | none => (s.mfault s!"uaf-conn({fd}) in ares_conn_flush", .other)
+  | some c =>
+    match c.out with
+    | [] => (s.notify fd true false, .ok)
+    | f :: rest =>
+      if !c.tcp then
+        let (e, s) := s.fault "sendto"
+        match e with
+        | some errno =>
+          let s := (s.emit s!"send!({fd},{errno})").slog fd "send"
+          if isWouldBlock errno then
+            let s := s.notify fd true true
+            (s.notify fd true false, .ok)
+          else (s, .connrefused)
+        | none =>
+          let s := s.recordTx fd false f
+          let s := s.notify fd true false
+          let s := s.modConn fd fun c => { c with out := rest }
+          go (.flush fd) s
+      else
+        if !c.connected then
+          -- ares_conn_write refuses to write on an unconnected TCP socket: would block
+          let s := s.notify fd true true
+          (s, .ok)
+        else
+        let (e, s) := s.fault "sendto"
+        match e with
+        | some errno =>
+          let s := (s.emit s!"send!({fd},{errno})").slog fd "send"
+          if isWouldBlock errno then (s.notify fd true true, .ok) else (s, .connrefused)
+        | none =>
+          let total := outBytes c
+          let v := (s.sock? fd).getD default
+          let (acc, v) := tcpAccept v total
+          let s := (s.setSock v).slog fd "send"
+          match acc with
+          | none =>
+            let s := s.emit s!"send({fd},again)"
+            (s.notify fd true true, .ok)
+          | some n =>
+            let s := if n != total then s.emit s!"send({fd},{n}/{total})" else s
+            let s := advanceOut (c.out.length + 1) fd s n
+            let s := if n == total then s.notify fd true false else s
+            let c' := (s.conn? fd).getD c
+            (s.notify fd true (outBytes c' != 0), .ok)
 
-/-- ares_is_onion_domain: the name is "onion" / "onion." or ends in ".onion" / ".onion." (any case) -/
-def isOnion (name : String) : Bool :=
-  let n := hexLower (stripDot name)
-  n == "6f6e696f6e" || (n.length ≥ 12 && (n.drop (n.length - 12)).toString == "2e6f6e696f6e")
+/-- `requeue` with the recursive calls abstracted as `go` -/
+def bodyRequeue (go : Call → St → St × Ret) (key : Nat) (st : Status) (inc : Bool) (rec : Option Reply) (deferred : Bool) (s : St) : St × Ret :=
+  match s.query? key with
+  | none => (s.mfault s!"uaf-query({key}) in ares_requeue_query", .other)
+  | some _ =>
+    let maxTries := s.servers.length * s.cfg.tries
+    let s := s.removeFromConn key
+    let s := s.modQuery key fun q =>
+      { q with errorStatus := if st != .ok then st else q.errorStatus,
+               tryCount := if inc then q.tryCount + 1 else q.tryCount }
+    let q := (s.query? key).getD default
+    if q.tryCount < maxTries && !q.noRetries then
+      if deferred then
+        -- ares_append_requeue
+        ({ s with requeueArr := s.requeueArr ++ [(q.qid, none)] }, .ok)
+      else go (.sendQuery none key) s
+    else
+      let es := if q.errorStatus == .ok then .timeout else q.errorStatus
+      let s := s.modQuery key fun q => { q with errorStatus := es }
+      let (s, _) := go (.endQuery none key es rec) s
+      (s, .timeout)
 
-def St.client? (s : St) (id : Nat) : Option Client := s.clients.find? (·.id == id)
-def St.modClient (s : St) (id : Nat) (f : Client → Client) : St :=
-  { s with clients := s.clients.map fun c => if c.id == id then f c else c }
+/-- `endQuery` with the recursive calls abstracted as `go` -/
+def bodyEndQuery (go : Call → St → St × Ret) (srv : Option Nat) (key : Nat) (st : Status) (rec : Option Reply) (s : St) : St × Ret :=
+  match s.query? key with
+  | none => (s.mfault s!"uaf-query({key}) in end_query", .other)
+  | some q =>
+    let s := match srv with
+      | some id => s.modServer id fun v => { v with probePending := false }
+      | none => s
+    let s := s.metricsRecord q srv st rec
+    let s := s.detach key
+    let (s, _) := go (.callback q.owner q.react st q.timeouts rec) s
+    (s.freeQuery key, .ok)
 
+/-- `callback` with the recursive calls abstracted as `go` -/
+def bodyCallback (go : Call → St → St × Ret) (owner : Owner) (react : List Nat) (st : Status) (timeouts : Nat) (rec : Option Reply) (s : St) : St × Ret :=
+  match owner with
+  | .probe => (s, .ok)
+  | .client id =>
+    -- completion callback of a compound request (ares_query_dnsrec_cb, search_callback, …):
+    -- the pure client logic decides what happens next
+    match s.client? id with
+    | none => (s.mfault s!"uaf-client({id}) in completion callback", .other)
+    | some c =>
+      let (c', acts) := clientOnCb s.cfg c st timeouts rec
+      let s := s.modClient id fun _ => c'
+      go (.runActs id acts) s
+  | .user tok => go (.userCb tok react st timeouts (digest rec)) s
+
+/-- `userCb` with the recursive calls abstracted as `go` -/
+def bodyUserCb (go : Call → St → St × Ret) (tok : Nat) (react : List Nat) (st : Status) (timeouts : Nat) (dg : String) (s : St) : St × Ret :=
+  let s := s.userCallback tok st timeouts dg
+  if s.destroying || s.destroyed then (s, .ok) else go (.reactions react) s
+
+/-- `reactions` with the recursive calls abstracted as `go` -/
+def bodyReactions (go : Call → St → St × Ret) (l : List Nat) (s : St) : St × Ret :=
+  match l with
+  | [] => (s, .ok)
+  | i :: rest =>
+    if s.destroying || s.destroyed then (s, .ok) else
+    let s := match s.reactions.find? (·.1 == i) with
+      | none => s
+      | some (_, r) =>
+        if r.kind == "cancel" then
+          (go .cancel (s.emit "react(cancel)")).1
+        else if r.kind == "send" then
+          -- every request started by a reaction gets a fresh token
+          let tok := 10000 + s.reactSeq
+          let s := { s with reactSeq := s.reactSeq + 1 }
+          let s := s.emit s!"react(send,{tok})"
+          let s := { s with pendingToks := s.pendingToks ++ [tok] }
+          let (s, st) := go (.sendNolock none false false { name := r.name, qtype := r.qtype } (.user tok) r.react) s
+          s.emit s!"ret({tok},{st.name})"
+        else s
+    go (.reactions rest) s
+
+/-- `connError` with the recursive calls abstracted as `go` -/
+def bodyConnError (go : Call → St → St × Ret) (fd : Nat) (critical : Bool) (st : Status) (s : St) : St × Ret :=
+  match s.conn? fd with
+  | none => (s.mfault s!"uaf-conn({fd}) in handle_conn_error", .other)
+  | some c =>
+    let s := if critical then s.incFailures c.srv c.tcp else s
+    go (.closeConn fd st) s
+
+/-- `closeConn` with the recursive calls abstracted as `go` -/
+def bodyCloseConn (go : Call → St → St × Ret) (fd : Nat) (st : Status) (s : St) : St × Ret :=
+  match s.conn? fd with
+  | none => (s.mfault s!"uaf-conn({fd}) in ares_close_connection", .other)
+  | some c =>
+    let s := s.modServer c.srv fun v =>
+      { v with conns := v.conns.erase fd, tcpConn := if c.tcp then none else v.tcpConn }
+    let s := s.modConn fd fun c => { c with unlinked := true, out := [], outOff := 0, inBytes := 0, inMsgs := [] }
+    go (.closeLoop fd st) s
+
+/-- `closeLoop` with the recursive calls abstracted as `go` -/
+def bodyCloseLoop (go : Call → St → St × Ret) (fd : Nat) (st : Status) (s : St) : St × Ret :=
+  match s.conn? fd with
+  | none => (s.mfault s!"uaf-conn({fd}) in ares_requeue_queries", .other)
+  | some c =>
+    match c.queries with
+    | k :: _ =>
+      let (s, _) := go (.requeue k st true none false) s
+      -- guard against a query that could not be unlinked (cannot happen: requeue removes it)
+      let s := s.modConn fd fun c => { c with queries := c.queries.erase k }
+      go (.closeLoop fd st) s
+    | [] =>
+      let s := s.notify fd false false
+      let s := ((s.modSock fd fun v => { v with isOpen := false }).emit s!"close({fd})").slog fd "close"
+      ({ s with conns := s.conns.filter (·.fd != fd) }, .ok)
+
+/-- `processWrite` with the recursive calls abstracted as `go` -/
+def bodyProcessWrite (go : Call → St → St × Ret) (fd : Nat) (s : St) : St × Ret :=
+  match s.conn? fd with
+  | none => (s, .ok)
+  | some c =>
+    if c.unlinked then (s, .ok) else
+    let s := s.modConn fd fun c => { c with connected := true }
+    let (s, r) := go (.flush fd) s
+    if r != .ok then go (.connError fd true r) s else (s, .ok)
+
+/-- `processRead` with the recursive calls abstracted as `go` -/
+def bodyProcessRead (go : Call → St → St × Ret) (fd : Nat) (s : St) : St × Ret :=
+  match s.conn? fd, s.sock? fd with
+  | some c, some v =>
+    if c.unlinked then (s, .ok) else
+    if !c.tcp then
+      -- read_conn_packets, UDP: loop until the socket would block
+      let (e, s) := s.fault "recvfrom"
+      let s := s.slog fd "recv"
+      match e with
+      | some errno =>
+        let s := s.emit s!"recv!({fd})"
+        if isWouldBlock errno then go (.readAnswers fd) s
+        else
+          let (s, _) := go (.connError fd true .connrefused) s
+          (s, .connrefused)
+      | none =>
+        match v.rx with
+        | [] => go (.readAnswers fd) s
+        | r :: rest =>
+          let s := s.modSock fd fun v => { v with rx := rest }
+          if r.wrongsrc then go (.readAnswers fd) s
+          else
+            let s := s.modConn fd fun c =>
+              { c with inMsgs := c.inMsgs ++ [(c.inBytes + 2 + r.len, r)], inBytes := c.inBytes + 2 + r.len,
+                       connected := true }
+            go (.processRead fd) s
+    else
+      let (e, s) := s.fault "recvfrom"
+      let s := s.slog fd "recv"
+      match e with
+      | some errno =>
+        let s := s.emit s!"recv!({fd})"
+        if isWouldBlock errno then go (.readAnswers fd) s
+        else
+          let (s, _) := go (.connError fd true .connrefused) s
+          (s, .connrefused)
+      | none =>
+        let avail := v.slen - v.spos
+        if avail == 0 then
+          if v.reset || v.eof then
+            let (s, _) := go (.connError fd true .connrefused) s
+            (s, .connrefused)
+          else go (.readAnswers fd) s
+        else
+          let (n, chunks, again) : Nat × List Nat × Bool :=
+            match v.chunks with
+            | [] => (avail, [], false)
+            | c :: r => if c == 0 then (0, r, true) else (min c avail, r, false)
+          if again then
+            go (.readAnswers fd) (s.modSock fd fun v => { v with chunks := chunks })
+          else
+            let s := s.modSock fd fun v => { v with chunks := chunks, spos := v.spos + n }
+            -- messages whose last byte has now arrived become visible in in_buf
+            let s := s.modConn fd fun c => { c with inBytes := c.inBytes + n, connected := true }
+            go (.readAnswers fd) s
+  | _, _ => (s, .ok)
+
+/-- `readAnswers` with the recursive calls abstracted as `go` -/
+def bodyReadAnswers (go : Call → St → St × Ret) (fd : Nat) (s : St) : St × Ret :=
+  match s.conn? fd, s.sock? fd with
+  | some c, some v =>
+    -- next complete frame in in_buf?
+    let next : Option Reply :=
+      if !c.tcp then (c.inMsgs.head?).map (·.2)
+      else
+        -- stream positions are absolute: a message is complete when its end offset ≤ bytes read so far
+        nextTcpFrame v.stream v.spos c.inBytes
+    match next with
+    | none => go .flushRequeue s
+    | some r =>
+      let s := s.modConn fd fun c =>
+        { c with inMsgs := c.inMsgs.drop 1, inBytes := c.inBytes - (2 + r.len) }
+      let (s, st) := go (.processAnswer fd r) s
+      -- the completion callback may have closed this very connection: re-validate by descriptor
+      match s.conn? fd with
+      | none => go .flushRequeue s
+      | some c' =>
+        if c'.unlinked then go .flushRequeue s else
+        if st != .ok then
+          let (s, _) := go (.connError fd true st) s
+          go .flushRequeue s
+        else go (.readAnswers fd) s
+  | _, _ => (s.mfault s!"uaf-conn({fd}) in read_answers", .other)
+
+/-- `flushRequeue` with the recursive calls abstracted as `go` -/
+def bodyFlushRequeue (go : Call → St → St × Ret)  (s : St) : St × Ret :=
+  match s.requeueArr with
+  | [] => (s, .ok)
+  | (qid, srv) :: rest =>
+    let s := { s with requeueArr := rest }
+    match s.byQid.find? (·.1 == qid) with
+    | none => go .flushRequeue s      -- query disappeared
+    | some (_, key) =>
+      let (s, _) := go (.sendQuery srv key) s
+      go .flushRequeue s
+
+/-- `processAnswer` with the recursive calls abstracted as `go` -/
+def bodyProcessAnswer (go : Call → St → St × Ret) (fd : Nat) (r : Reply) (s : St) : St × Ret :=
+  match s.conn? fd with
+  | none => (s.mfault s!"uaf-conn({fd}) in process_answer", .other)
+  | some c =>
+    if r.empty then (s, .ok) else
+    if r.garbage then (s, .badresp) else
+    match s.byQid.find? (·.1 == r.id) with
+    | none => (s, .ok)
+    | some (_, key) =>
+      match s.query? key with
+      | none => (s.mfault s!"dangling-qid({r.id})", .other)
+      | some q =>
+        let sameQ := q.qtype == r.qtype && q.qclass == r.qclass &&
+          (if s.cfg.dns0x20 && !q.usingTcp then q.name == r.name else hexLower q.name == hexLower r.name)
+        if !sameQ then (s, .ok) else
+        -- ares_cookie_validate
+        let srvNow := (s.server? c.srv).getD default
+        let respCk : Option (List UInt8) := if r.hasOpt then r.cookie.map hexToBytes else none
+        let vo := Cares.Proto.Cookie.validate srvNow.cookie { cookieTry := q.cookieTry, usingTcp := q.usingTcp }
+                    (if q.edns then q.reqCookie else none) respCk r.rcode s.tv
+        let s := s.modServer c.srv fun v => { v with cookie := vo.ck }
+        let s := s.modQuery key fun q => { q with cookieTry := vo.q.cookieTry, usingTcp := vo.q.usingTcp }
+        let (s, _) := if vo.requeue then go (.requeue key .ok false none true) s else (s, Status.ok)
+        if vo.verdict == .drop then (s, .ok) else
+        let q := (s.query? key).getD q
+        let s := { s with accepted := s.accepted ++ [(fd, key, r)] }
+        -- the query leaves the connection's list; the connection may now be cleaned up later
+        let s := s.modConn (q.conn.getD fd) fun c => { c with queries := c.queries.erase key }
+        let s := s.modQuery key fun q => { q with inConnList := false }
+        -- issue_might_be_edns / rewrite_without_edns
+        let ednsIssue := r.rcode == 1 && q.edns &&
+          (!r.hasOpt || (q.reqCookie.isSome && r.hasOpt))
+        if ednsIssue then
+          let s := s.removeFromConn key
+          let s := s.modQuery key fun q => { q with edns := false, reqCookie := none, cookie := "-" }
+          ({ s with requeueArr := s.requeueArr ++ [(q.qid, some c.srv)] }, .ok)
+        else if r.tc && !c.tcp && !s.cfg.igntc then
+          let s := s.removeFromConn key
+          let s := s.modQuery key fun q => { q with usingTcp := true }
+          ({ s with requeueArr := s.requeueArr ++ [(q.qid, none)] }, .ok)
+        else if !s.cfg.nocheckresp && (r.rcode == 2 || r.rcode == 4 || r.rcode == 5) then
+          let st : Status := if r.rcode == 2 then .servfail else if r.rcode == 4 then .notimp else .refused
+          let s := s.incFailures c.srv q.usingTcp
+          let (s, _) := go (.requeue key st true (some r) true) s
+          (s, .ok)
+        else
+          let s := s.cacheInsert q r
+          let s := s.setGood c.srv q.usingTcp
+          let (s, _) := go (.endQuery (some c.srv) key .ok (some r)) s
+          (s, .ok)
+
+/-- `processTimeouts` with the recursive calls abstracted as `go` -/
+def bodyProcessTimeouts (go : Call → St → St × Ret)  (s : St) : St × Ret :=
+  match s.byTimeout.head? with
+  | none => (s, .ok)
+  | some key =>
+    match s.query? key with
+    | none => (s.mfault s!"dangling-timeout({key})", .other)
+    | some q =>
+      if !expired s.now q.deadline then (s, .ok) else
+      match q.conn.bind s.conn? with
+      | none => (s.mfault s!"timeout-without-conn({key})", .other)
+      | some c =>
+        let s := s.modQuery key fun q => { q with timeouts := q.timeouts + 1 }
+        let s := s.incFailures c.srv q.usingTcp
+        let (s, _) := go (.requeue key .timeout true none false) s
+        go .processTimeouts s
+
+/-- `cleanupConns` with the recursive calls abstracted as `go` -/
+def bodyCleanupConns (go : Call → St → St × Ret) (todo : List Nat) (s : St) : St × Ret :=
+  match todo with
+  | [] => (s, .ok)
+  | fd :: rest =>
+    match s.conn? fd with
+    | none => go (.cleanupConns rest) s
+    | some c =>
+      let failures := ((s.server? c.srv).map (·.failures)).getD 0
+      let doit := c.queries.isEmpty && !c.unlinked &&
+        (!s.cfg.stayopen || failures > 0 || (!c.tcp && s.cfg.udpMax > 0 && c.total ≥ s.cfg.udpMax))
+      let s := if doit then (go (.closeConn fd .ok) s).1 else s
+      go (.cleanupConns rest) s
+
+/-- `clientStart` with the recursive calls abstracted as `go` -/
+def bodyClientStart (go : Call → St → St × Ret) (kind : String) (tok : Nat) (react : List Nat) (spec : ReqSpec) (s : St) : St × Ret :=
+  let id := s.nextClient
+  let (c, acts) := clientStart s.cfg id kind tok react spec
+  let s := { s with clients := s.clients ++ [c], nextClient := id + 1 }
+  go (.runActs id acts) s
+
+/-- `runActs` with the recursive calls abstracted as `go` -/
+def bodyRunActs (go : Call → St → St × Ret) (id : Nat) (acts : List ClientAct) (s : St) : St × Ret :=
+  match acts with
+  | [] => (s, .ok)
+  | .send spec :: rest =>
+    let (s, st) := go (.sendNolock none false false spec (.client id) []) s
+    let (s, st') := go (.runActs id rest) s
+    (s, if rest.isEmpty then st else st')
+  | .finish st timeouts dg :: _ =>
+    -- user callback first, then the compound request's state is released
+    match s.client? id with
+    | none => (s.mfault s!"uaf-client({id}) at completion", .other)
+    | some c =>
+      let (s, _) := go (.userCb c.tok c.react st timeouts dg) s
+      ({ s with clients := s.clients.filter (·.id != id) }, st)
+
+/-- `cancel` with the recursive calls abstracted as `go` -/
+def bodyCancel (go : Call → St → St × Ret)  (s : St) : St × Ret :=
+  let s := if s.all.isEmpty then s else
+    -- swap list heads: only queries present on entry are cancelled
+    let s := { s with listCopy := s.all :: s.listCopy, all := [] }
+    let (s, _) := go (.cancelLoop .cancelled false) s
+    { s with listCopy := s.listCopy.drop 1 }
+  let fds := (s.sortedServers.map (·.conns)).flatten
+  go (.cleanupConns fds) s
+
+/-- `cancelLoop` with the recursive calls abstracted as `go` -/
+def bodyCancelLoop (go : Call → St → St × Ret) (st : Status) (fromAll : Bool) (s : St) : St × Ret :=
+  -- always take the first remaining entry of the list being walked
+  match (if fromAll then s.all.head? else (s.listCopy.head?).bind (·.head?)) with
+  | none => (s, .ok)
+  | some key =>
+    match s.query? key with
+    | none => (s.mfault s!"uaf-query({key}) in cancel/destroy walk", .other)
+    | some q =>
+      -- the query is released before its callback runs
+      let s := s.freeQuery key
+      let (s, _) := go (.callback q.owner q.react st 0 none) s
+      go (.cancelLoop st fromAll) s
+
+/-- `destroy` with the recursive calls abstracted as `go` -/
+def bodyDestroy (go : Call → St → St × Ret)  (s : St) : St × Ret :=
+  -- ares_destroy walks channel->all_queries itself
+  let s := { s with destroying := true }
+  let (s, _) := go (.cancelLoop .destruction true) s
+  let fds := (s.sortedServers.map (·.conns)).flatten
+  let s := fds.foldl (fun s fd => (go (.closeConn fd .ok) s).1) s
+  ({ s with destroyed := true, destroying := false, alive := false }, .ok)
+
+/-- one procedure, recursive calls through `go` -/
+def execBody (go : Call → St → St × Ret) (call : Call) (s : St) : St × Ret :=
+  match call with
+  | .sendNolock reqSrv nocache noretry spec owner react => bodySendNolock go reqSrv nocache noretry spec owner react s
+  | .sendQuery reqSrv key => bodySendQuery go reqSrv key s
+  | .probe srvId key => bodyProbe go srvId key s
+  | .flush fd => bodyFlush go fd s
+  | .requeue key st inc rec deferred => bodyRequeue go key st inc rec deferred s
+  | .endQuery srv key st rec => bodyEndQuery go srv key st rec s
+  | .callback owner react st timeouts rec => bodyCallback go owner react st timeouts rec s
+  | .userCb tok react st timeouts dg => bodyUserCb go tok react st timeouts dg s
+  | .reactions l => bodyReactions go l s
+  | .connError fd critical st => bodyConnError go fd critical st s
+  | .closeConn fd st => bodyCloseConn go fd st s
+  | .closeLoop fd st => bodyCloseLoop go fd st s
+  | .processWrite fd => bodyProcessWrite go fd s
+  | .processRead fd => bodyProcessRead go fd s
+  | .readAnswers fd => bodyReadAnswers go fd s
+  | .flushRequeue  => bodyFlushRequeue go  s
+  | .processAnswer fd r => bodyProcessAnswer go fd r s
+  | .processTimeouts  => bodyProcessTimeouts go  s
+  | .cleanupConns todo => bodyCleanupConns go todo s
+  | .clientStart kind tok react spec => bodyClientStart go kind tok react spec s
+  | .runActs id acts => bodyRunActs go id acts s
+  | .cancel  => bodyCancel go  s
+  | .cancelLoop st fromAll => bodyCancelLoop go st fromAll s
+  | .destroy  => bodyDestroy go  s
+
+/-- run a procedure to completion: structural recursion on `fuel` (open recursion through `execBody`) -/
 def exec : Nat → Call → St → St × Ret
   | 0, _, s => s.oof
-  | fuel + 1, call, s =>
-    match call with
-    /- ---------------------------------------------------------------- ares_send_nolock -/
-    | .sendNolock reqSrv nocache noretry spec owner react =>
-      let (qid, s) := genQid 70000 s
-      if s.servers.isEmpty then
-        let (s, _) := exec fuel (.callback owner react .noserver 0 none) s
-        (s, .noserver)
-      else
-        let s := if nocache then s else s.cacheExpire
-        match (if nocache then none else s.cacheFetch spec.name spec.qtype spec.qclass spec.rd) with
-        | some e =>
-          let (s, _) := exec fuel (.callback owner react .ok 0 (some e.reply)) s
-          (s, .ok)
-        | none =>
-          let key := s.nextKey
-          let usingTcp := s.cfg.usevc
-          -- ares_apply_dns0x20 draws (len+7)/8 random bytes; only 1- and 2-byte draws are observed
-          let nbytes := (nameTextLen spec.name + 7) / 8
-          let s := if s.cfg.dns0x20 && !usingTcp && nameTextLen spec.name > 0 then
-              (if nbytes == 1 then s.draw1.2 else if nbytes == 2 then s.draw2.2 else s) else s
-          -- the request is duplicated by writing and re-parsing it: a trailing dot does not survive
-          let q : Query := { key := key, qid := qid, owner := owner, react := react, name := normEscapes (stripDot spec.name),
-                             qtype := spec.qtype, qclass := spec.qclass, rd := spec.rd, edns := spec.edns,
-                             usingTcp := usingTcp, noRetries := noretry }
-          let s := { s with nextKey := key + 1, qs := s.qs ++ [q], all := s.all ++ [key],
-                            byQid := s.byQid ++ [(qid, key)] }
-          exec fuel (.sendQuery reqSrv key) s
-    /- ---------------------------------------------------------------- ares_send_query -/
-    | .sendQuery reqSrv key =>
-      match s.query? key with
-      | none => (s.mfault s!"uaf-query({key}) in ares_send_query", .other)
-      | some q =>
-      -- choose the server
-      let sorted := s.sortedServers
-      let (srv?, s) : Option Server × St :=
-        match reqSrv with
-        | some id => (s.server? id, s)
-        | none =>
-          if s.cfg.rotate then
-            let nbest := countBest sorted
-            if nbest == 0 then (none, s) else
-            let (c, s) := s.draw1
-            (sorted[c % nbest]?, s)
-          else (sorted.head?, s)
-      match srv? with
-      | none => exec fuel (.endQuery none key .noserver none) s
-      | some srv =>
-      let probeDowned := reqSrv.isNone && srv.failures == 0 && q.tryCount == 0
-      -- ares_fetch_connection
-      let existing : Option Nat :=
-        if q.usingTcp then srv.tcpConn
-        else match srv.conns.head? with
-          | none => none
-          | some fd =>
-            match s.conn? fd with
-            | none => none
-            | some c =>
-              if c.tcp then none
-              else if s.cfg.udpMax > 0 && c.total ≥ s.cfg.udpMax then none
-              else some fd
-      -- ares_open_connection
-      let (connRes, s) : (Except Status Nat) × St :=
-        match existing with
-        | some fd => (.ok fd, s)
-        | none =>
-          let tcp := q.usingTcp
-          let (f, s) := s.fault "socket"
-          match f with
-          | some _ => (.error .connrefused, s.emit s!"sock!({if tcp then "tcp" else "udp"})")
-          | none =>
-            let fd := s.nextFd
-            let wl := if tcp then s.pendingWl else []
-            let s := { s with nextFd := fd + 1,
-                              pendingWl := if tcp then [] else s.pendingWl,
-                              socks := s.socks ++ [({ fd := fd, tcp := tcp, wl := wl } : VSock)] }
-            let s := s.emit s!"sock({fd},{if tcp then "tcp" else "udp"},4)"
-            let port := if tcp then srv.tcpPort else srv.udpPort
-            let s := s.modSock fd fun v => { v with peer := srv.addr, port := port }
-            let (f, s) := s.fault "connect"
-            let connFail := match f with
-              | some e => !isWouldBlock e
-              | none => false
-            let s := match f with
-              | some _ => s.emit s!"conn!({fd},{srv.addr}#{port})"
-              | none => s.emit s!"conn({fd},{srv.addr}#{port})"
-            if connFail then
-              let s := (s.modSock fd fun v => { v with isOpen := false }).emit s!"close({fd})"
-              (.error .connrefused, s)
-            else
-              let (f, s) := s.fault "getsockname"
-              match f with
-              | some _ =>
-                let s := (s.modSock fd fun v => { v with isOpen := false }).emit s!"close({fd})"
-                (.error .connrefused, s)
-              | none =>
-                let c : Conn := { fd := fd, srv := srv.id, tcp := tcp, selfIp := s.selfVariant }
-                let s := { s with conns := s.conns ++ [c] }
-                let s := s.modServer srv.id fun v =>
-                  { v with conns := if tcp then v.conns ++ [fd] else fd :: v.conns,
-                           tcpConn := if tcp then some fd else v.tcpConn }
-                let s := s.notify fd true tcp
-                (.ok fd, s)
-      match connRes with
-      | .error st =>
-        -- ECONNREFUSED / EBADFAMILY are retryable
-        let s := s.incFailures srv.id q.usingTcp
-        exec fuel (.requeue key st true none false) s
-      | .ok fd =>
-      -- ares_conn_query_write: ares_cookie_apply first
-      let cTcp := ((s.conn? fd).map (·.tcp)).getD q.usingTcp
-      let cSelf := ((s.conn? fd).map (·.selfIp)).getD 0
-      let srvNow0 := (s.server? srv.id).getD srv
-      let reqOpt : Cares.Proto.Cookie.ReqOpt := if q.edns then some q.reqCookie else none
-      let ao := Cares.Proto.Cookie.apply srvNow0.cookie { selfIp := selfAddr cSelf, tcp := cTcp } s.tv s.peek8 reqOpt
-      let s := if ao.draws > 0 then s.pop8 else s
-      let s := s.modServer srv.id fun v => { v with cookie := ao.ck }
-      let newCk : Option (List UInt8) := ao.req.join
-      let cookie := match newCk with
-        | some b => bytesToHex b
-        | none => "-"
-      let s := s.modQuery key fun q => { q with reqCookie := newCk, cookie := cookie }
-      let q := { q with reqCookie := newCk, cookie := cookie }
-      let frame : OutFrame := { len := frameLen q.name q.edns cookie, key := key, qid := q.qid, name := q.name,
-                                qtype := q.qtype, qclass := q.qclass, rd := q.rd, edns := q.edns, cookie := cookie }
-      let s := s.modConn fd fun c => { c with out := c.out ++ [frame] }
-      let c := (s.conn? fd).getD default
-      let (wst, s) : Status × St :=
-        if c.tcp && !c.connected then (.ok, s)
-        else if s.cfg.pendingWrite && !s.notifyPending && c.tcp then
-          (.ok, ({ s with notifyPending := true }).emit "pendingwrite")
-        else
-          let (s, r) := exec fuel (.flush fd) s
-          (r, s)
-      match wst with
-      | .ok =>
-        match s.query? key, s.conn? fd with
-        | some q, some _ =>
-          -- ares_calc_query_timeout
-          let srvNow := (s.server? srv.id).getD srv
-          let timeout := s.serverTimeout srvNow
-          let nsrv := s.servers.length
-          let rounds := q.tryCount / nsrv
-          let timeplus := if rounds > 0 then timeout * 2 ^ rounds else timeout
-          let timeplus := if s.cfg.maxtimeout != 0 && timeplus > s.cfg.maxtimeout then s.cfg.maxtimeout else timeplus
-          let (dl, s) : Deadline × St :=
-            if rounds > 0 then
-              let (_, s) := s.draw2
-              let lo := max timeout (timeplus - timeplus / 2)
-              let hi := max timeout timeplus
-              (.pending (s.now + lo) (s.now + hi), s)
-            else (.at (s.now + max timeplus timeout), s)
-          let s := { s with byTimeout := s.byTimeout.erase key }
-          -- ares_llist_node_destroy(query->node_queries_to_conn): leave whatever list it was still in
-          let s := match q.conn with
-            | some old => s.modConn old fun c => { c with queries := c.queries.erase key }
-            | none => s
-          let s := s.modQuery key fun q => { q with ts := s.now, deadline := dl, conn := some fd, inConnList := true }
-          -- the skip-list insertion is replayed by `settle` at the end of the op, in send order, once the
-          -- jittered values have been observed (entries sent in this op cannot expire within it)
-          let s := { s with pendingOrder := s.pendingOrder.erase key ++ [key] }
-          let s := s.modConn fd fun c => { c with queries := c.queries.erase key ++ [key], total := c.total + 1 }
-          if probeDowned then
-            let (s, _) := exec fuel (.probe srv.id key) s
-            (s, .ok)
-          else (s, .ok)
-        | none, _ => (s.mfault s!"uaf-query({key}) after write in ares_send_query", .other)
-        | _, none => (s.mfault s!"uaf-conn({fd}) after write in ares_send_query", .other)
-      | .nomem => exec fuel (.endQuery (some srv.id) key .nomem none) s
-      | .connrefused | .badfamily =>
-        let (s, _) := exec fuel (.connError fd true wst) s
-        -- the C code goes on to use `query` here whatever the callbacks run by the close did
-        -- the close may have run callbacks that cancelled this query: re-validate through the qid table
-        match (s.byQid.find? (fun (id, k) => id == q.qid && k == key)).bind (fun _ => s.query? key) with
-        | none => (s, .cancelled)
-        | some _ =>
-          let (s, r) := exec fuel (.requeue key wst true none false) s
-          (s, if r == .timeout then .connrefused else r)
-      | wst' =>
-        let s := s.incFailures srv.id q.usingTcp
-        exec fuel (.requeue key wst' true none false) s
-    /- ---------------------------------------------------------------- ares_probe_failed_server -/
-    | .probe srvId key =>
-      match s.query? key with
-      | none => (s, .ok)
-      | some q =>
-      let sorted := s.sortedServers
-      match sorted.getLast? with
-      | none => (s, .ok)
-      | some last =>
-        if last.failures == 0 || s.cfg.retryChance == 0 then (s, .ok) else
-        let (r, s) := s.draw2
-        if r % s.cfg.retryChance != 0 then (s, .ok) else
-        match sorted.find? (fun v => v.failures > 0 && !v.probePending && s.now ≥ v.nextRetry) with
-        | none => (s, .ok)
-        | some pv =>
-          if pv.id == srvId then (s, .ok) else
-          let s := s.modServer pv.id fun v => { v with probePending := true }
-          let (s, _) := exec fuel (.sendNolock (some pv.id) true true
-            { name := q.name, qtype := q.qtype, qclass := q.qclass, rd := q.rd, edns := q.edns } .probe []) s
-          (s, .ok)
-    /- ---------------------------------------------------------------- ares_conn_flush -/
-    | .flush fd =>
-      match s.conn? fd with
-      | none => (s.mfault s!"uaf-conn({fd}) in ares_conn_flush", .other)
-      | some c =>
-        match c.out with
-        | [] => (s.notify fd true false, .ok)
-        | f :: rest =>
-          if !c.tcp then
-            let (e, s) := s.fault "sendto"
-            match e with
-            | some errno =>
-              let s := s.emit s!"send!({fd},{errno})"
-              if isWouldBlock errno then
-                let s := s.notify fd true true
-                (s.notify fd true false, .ok)
-              else (s, .connrefused)
-            | none =>
-              let s := s.recordTx fd false f
-              let s := s.notify fd true false
-              let s := s.modConn fd fun c => { c with out := rest }
-              exec fuel (.flush fd) s
-          else
-            if !c.connected then
-              -- ares_conn_write refuses to write on an unconnected TCP socket: would block
-              let s := s.notify fd true true
-              (s, .ok)
-            else
-            let (e, s) := s.fault "sendto"
-            match e with
-            | some errno =>
-              let s := s.emit s!"send!({fd},{errno})"
-              if isWouldBlock errno then (s.notify fd true true, .ok) else (s, .connrefused)
-            | none =>
-              let total := outBytes c
-              let v := (s.sock? fd).getD default
-              let (acc, v) := tcpAccept v total
-              let s := s.setSock v
-              match acc with
-              | none =>
-                let s := s.emit s!"send({fd},again)"
-                (s.notify fd true true, .ok)
-              | some n =>
-                let s := if n != total then s.emit s!"send({fd},{n}/{total})" else s
-                let s := advanceOut (c.out.length + 1) fd s n
-                let s := if n == total then s.notify fd true false else s
-                let c' := (s.conn? fd).getD c
-                (s.notify fd true (outBytes c' != 0), .ok)
-    /- ---------------------------------------------------------------- ares_requeue_query -/
-    | .requeue key st inc rec deferred =>
-      match s.query? key with
-      | none => (s.mfault s!"uaf-query({key}) in ares_requeue_query", .other)
-      | some _ =>
-        let maxTries := s.servers.length * s.cfg.tries
-        let s := s.removeFromConn key
-        let s := s.modQuery key fun q =>
-          { q with errorStatus := if st != .ok then st else q.errorStatus,
-                   tryCount := if inc then q.tryCount + 1 else q.tryCount }
-        let q := (s.query? key).getD default
-        if q.tryCount < maxTries && !q.noRetries then
-          if deferred then
-            -- ares_append_requeue
-            ({ s with requeueArr := s.requeueArr ++ [(q.qid, none)] }, .ok)
-          else exec fuel (.sendQuery none key) s
-        else
-          let es := if q.errorStatus == .ok then .timeout else q.errorStatus
-          let s := s.modQuery key fun q => { q with errorStatus := es }
-          let (s, _) := exec fuel (.endQuery none key es rec) s
-          (s, .timeout)
-    /- ---------------------------------------------------------------- end_query -/
-    | .endQuery srv key st rec =>
-      match s.query? key with
-      | none => (s.mfault s!"uaf-query({key}) in end_query", .other)
-      | some q =>
-        let s := match srv with
-          | some id => s.modServer id fun v => { v with probePending := false }
-          | none => s
-        let s := s.metricsRecord q srv st rec
-        let s := s.detach key
-        let (s, _) := exec fuel (.callback q.owner q.react st q.timeouts rec) s
-        (s.freeQuery key, .ok)
-    /- ---------------------------------------------------------------- a completion callback -/
-    | .callback owner react st timeouts rec =>
-      match owner with
-      | .probe => (s, .ok)
-      | .client id =>
-        match s.client? id with
-        | none => (s.mfault s!"uaf-client({id}) in completion callback", .other)
-        | some c =>
-          if c.kind == "query" then
-            -- ares_query_dnsrec_cb
-            let st' := if st != .ok then st else
-              match rec with
-              | some r => replyToStatus r.rcode r.an
-              | none => st
-            let s := { s with clients := s.clients.filter (·.id != id) }
-            exec fuel (.callback (.user c.tok) c.react st' timeouts rec) s
-          else
-            -- search_callback
-            let s := s.modClient id fun c => { c with timeouts := c.timeouts + timeouts }
-            let my : Status := match rec with
-              | some r => replyToStatus r.rcode r.an
-              | none => st
-            let goOn : Bool :=
-              my == .nodata || my == .notfound ||
-              ((my == .servfail || my == .refused) && labelCnt c.lastName == 1)
-            if !goOn then exec fuel (.endClient id my rec) s else
-            let s := if my == .nodata then s.modClient id fun c => { c with everNodata := true } else s
-            if !c.names.isEmpty then
-              let (s, _) := exec fuel (.searchNext id) s
-              (s, .ok)
-            else
-              let c := (s.client? id).getD c
-              if c.everNodata then exec fuel (.endClient id .nodata none) s
-              else exec fuel (.endClient id my none) s
-      | .user tok =>
-        let s := s.userCallback tok st timeouts rec
-        if s.destroying || s.destroyed then (s, .ok) else exec fuel (.reactions react) s
-    | .reactions l =>
-      match l with
-      | [] => (s, .ok)
-      | i :: rest =>
-        if s.destroying || s.destroyed then (s, .ok) else
-        let s := match s.reactions.find? (·.1 == i) with
-          | none => s
-          | some (_, r) =>
-            if r.kind == "cancel" then
-              (exec fuel .cancel (s.emit "react(cancel)")).1
-            else if r.kind == "send" then
-              -- every request started by a reaction gets a fresh token
-              let tok := 10000 + s.reactSeq
-              let s := { s with reactSeq := s.reactSeq + 1 }
-              let s := s.emit s!"react(send,{tok})"
-              let s := { s with pendingToks := s.pendingToks ++ [tok] }
-              let (s, st) := exec fuel (.sendNolock none false false { name := r.name, qtype := r.qtype } (.user tok) r.react) s
-              s.emit s!"ret({tok},{st.name})"
-            else s
-        exec fuel (.reactions rest) s
-    /- ---------------------------------------------------------------- handle_conn_error / close -/
-    | .connError fd critical st =>
-      match s.conn? fd with
-      | none => (s.mfault s!"uaf-conn({fd}) in handle_conn_error", .other)
-      | some c =>
-        let s := if critical then s.incFailures c.srv c.tcp else s
-        exec fuel (.closeConn fd st) s
-    | .closeConn fd st =>
-      match s.conn? fd with
-      | none => (s.mfault s!"uaf-conn({fd}) in ares_close_connection", .other)
-      | some c =>
-        let s := s.modServer c.srv fun v =>
-          { v with conns := v.conns.erase fd, tcpConn := if c.tcp then none else v.tcpConn }
-        let s := s.modConn fd fun c => { c with unlinked := true, out := [], outOff := 0, inBytes := 0, inMsgs := [] }
-        exec fuel (.closeLoop fd st) s
-    | .closeLoop fd st =>
-      match s.conn? fd with
-      | none => (s.mfault s!"uaf-conn({fd}) in ares_requeue_queries", .other)
-      | some c =>
-        match c.queries with
-        | k :: _ =>
-          let (s, _) := exec fuel (.requeue k st true none false) s
-          -- guard against a query that could not be unlinked (cannot happen: requeue removes it)
-          let s := s.modConn fd fun c => { c with queries := c.queries.erase k }
-          exec fuel (.closeLoop fd st) s
-        | [] =>
-          let s := s.notify fd false false
-          let s := (s.modSock fd fun v => { v with isOpen := false }).emit s!"close({fd})"
-          ({ s with conns := s.conns.filter (·.fd != fd) }, .ok)
-    /- ---------------------------------------------------------------- process_write -/
-    | .processWrite fd =>
-      match s.conn? fd with
-      | none => (s, .ok)
-      | some c =>
-        if c.unlinked then (s, .ok) else
-        let s := s.modConn fd fun c => { c with connected := true }
-        let (s, r) := exec fuel (.flush fd) s
-        if r != .ok then exec fuel (.connError fd true r) s else (s, .ok)
-    /- ---------------------------------------------------------------- process_read -/
-    | .processRead fd =>
-      match s.conn? fd, s.sock? fd with
-      | some c, some v =>
-        if c.unlinked then (s, .ok) else
-        if !c.tcp then
-          -- read_conn_packets, UDP: loop until the socket would block
-          let (e, s) := s.fault "recvfrom"
-          match e with
-          | some errno =>
-            let s := s.emit s!"recv!({fd})"
-            if isWouldBlock errno then exec fuel (.readAnswers fd) s
-            else
-              let (s, _) := exec fuel (.connError fd true .connrefused) s
-              (s, .connrefused)
-          | none =>
-            match v.rx with
-            | [] => exec fuel (.readAnswers fd) s
-            | r :: rest =>
-              let s := s.modSock fd fun v => { v with rx := rest }
-              if r.wrongsrc then exec fuel (.readAnswers fd) s
-              else
-                let s := s.modConn fd fun c =>
-                  { c with inMsgs := c.inMsgs ++ [(c.inBytes + 2 + r.len, r)], inBytes := c.inBytes + 2 + r.len,
-                           connected := true }
-                exec fuel (.processRead fd) s
-        else
-          let (e, s) := s.fault "recvfrom"
-          match e with
-          | some errno =>
-            let s := s.emit s!"recv!({fd})"
-            if isWouldBlock errno then exec fuel (.readAnswers fd) s
-            else
-              let (s, _) := exec fuel (.connError fd true .connrefused) s
-              (s, .connrefused)
-          | none =>
-            let avail := v.slen - v.spos
-            if avail == 0 then
-              if v.reset || v.eof then
-                let (s, _) := exec fuel (.connError fd true .connrefused) s
-                (s, .connrefused)
-              else exec fuel (.readAnswers fd) s
-            else
-              let (n, chunks, again) : Nat × List Nat × Bool :=
-                match v.chunks with
-                | [] => (avail, [], false)
-                | c :: r => if c == 0 then (0, r, true) else (min c avail, r, false)
-              if again then
-                exec fuel (.readAnswers fd) (s.modSock fd fun v => { v with chunks := chunks })
-              else
-                let s := s.modSock fd fun v => { v with chunks := chunks, spos := v.spos + n }
-                -- messages whose last byte has now arrived become visible in in_buf
-                let s := s.modConn fd fun c => { c with inBytes := c.inBytes + n, connected := true }
-                exec fuel (.readAnswers fd) s
-      | _, _ => (s, .ok)
-    /- ---------------------------------------------------------------- read_answers -/
-    | .readAnswers fd =>
-      match s.conn? fd, s.sock? fd with
-      | some c, some v =>
-        -- next complete frame in in_buf?
-        let next : Option Reply :=
-          if !c.tcp then (c.inMsgs.head?).map (·.2)
-          else
-            -- stream positions are absolute: a message is complete when its end offset ≤ bytes read so far
-            match v.stream.find? (fun (e, _) => e > v.spos - c.inBytes) with
-            | some (e, r) => if e ≤ v.spos then some r else none
-            | none => none
-        match next with
-        | none => exec fuel .flushRequeue s
-        | some r =>
-          let s := s.modConn fd fun c =>
-            { c with inMsgs := c.inMsgs.drop 1, inBytes := c.inBytes - (2 + r.len) }
-          let (s, st) := exec fuel (.processAnswer fd r) s
-          -- the completion callback may have closed this very connection: re-validate by descriptor
-          match s.conn? fd with
-          | none => exec fuel .flushRequeue s
-          | some c' =>
-            if c'.unlinked then exec fuel .flushRequeue s else
-            if st != .ok then
-              let (s, _) := exec fuel (.connError fd true st) s
-              exec fuel .flushRequeue s
-            else exec fuel (.readAnswers fd) s
-      | _, _ => (s.mfault s!"uaf-conn({fd}) in read_answers", .other)
-    | .flushRequeue =>
-      match s.requeueArr with
-      | [] => (s, .ok)
-      | (qid, srv) :: rest =>
-        let s := { s with requeueArr := rest }
-        match s.byQid.find? (·.1 == qid) with
-        | none => exec fuel .flushRequeue s      -- query disappeared
-        | some (_, key) =>
-          let (s, _) := exec fuel (.sendQuery srv key) s
-          exec fuel .flushRequeue s
-    /- ---------------------------------------------------------------- process_answer -/
-    | .processAnswer fd r =>
-      match s.conn? fd with
-      | none => (s.mfault s!"uaf-conn({fd}) in process_answer", .other)
-      | some c =>
-        if r.empty then (s, .ok) else
-        if r.garbage then (s, .badresp) else
-        match s.byQid.find? (·.1 == r.id) with
-        | none => (s, .ok)
-        | some (_, key) =>
-          match s.query? key with
-          | none => (s.mfault s!"dangling-qid({r.id})", .other)
-          | some q =>
-            let sameQ := q.qtype == r.qtype && q.qclass == r.qclass &&
-              (if s.cfg.dns0x20 && !q.usingTcp then q.name == r.name else hexLower q.name == hexLower r.name)
-            if !sameQ then (s, .ok) else
-            -- ares_cookie_validate
-            let srvNow := (s.server? c.srv).getD default
-            let respCk : Option (List UInt8) := if r.hasOpt then r.cookie.map hexToBytes else none
-            let vo := Cares.Proto.Cookie.validate srvNow.cookie { cookieTry := q.cookieTry, usingTcp := q.usingTcp }
-                        (if q.edns then q.reqCookie else none) respCk r.rcode s.tv
-            let s := s.modServer c.srv fun v => { v with cookie := vo.ck }
-            let s := s.modQuery key fun q => { q with cookieTry := vo.q.cookieTry, usingTcp := vo.q.usingTcp }
-            let (s, _) := if vo.requeue then exec fuel (.requeue key .ok false none true) s else (s, Status.ok)
-            if vo.verdict == .drop then (s, .ok) else
-            let q := (s.query? key).getD q
-            -- the query leaves the connection's list; the connection may now be cleaned up later
-            let s := s.modConn (q.conn.getD fd) fun c => { c with queries := c.queries.erase key }
-            let s := s.modQuery key fun q => { q with inConnList := false }
-            -- issue_might_be_edns / rewrite_without_edns
-            let ednsIssue := r.rcode == 1 && q.edns &&
-              (!r.hasOpt || (q.reqCookie.isSome && r.hasOpt))
-            if ednsIssue then
-              let s := s.removeFromConn key
-              let s := s.modQuery key fun q => { q with edns := false, reqCookie := none, cookie := "-" }
-              ({ s with requeueArr := s.requeueArr ++ [(q.qid, some c.srv)] }, .ok)
-            else if r.tc && !c.tcp && !s.cfg.igntc then
-              let s := s.removeFromConn key
-              let s := s.modQuery key fun q => { q with usingTcp := true }
-              ({ s with requeueArr := s.requeueArr ++ [(q.qid, none)] }, .ok)
-            else if !s.cfg.nocheckresp && (r.rcode == 2 || r.rcode == 4 || r.rcode == 5) then
-              let st : Status := if r.rcode == 2 then .servfail else if r.rcode == 4 then .notimp else .refused
-              let s := s.incFailures c.srv q.usingTcp
-              let (s, _) := exec fuel (.requeue key st true (some r) true) s
-              (s, .ok)
-            else
-              let s := s.cacheInsert q r
-              let s := s.setGood c.srv q.usingTcp
-              let (s, _) := exec fuel (.endQuery (some c.srv) key .ok (some r)) s
-              (s, .ok)
-    /- ---------------------------------------------------------------- process_timeouts -/
-    | .processTimeouts =>
-      match s.byTimeout.head? with
-      | none => (s, .ok)
-      | some key =>
-        match s.query? key with
-        | none => (s.mfault s!"dangling-timeout({key})", .other)
-        | some q =>
-          if !expired s.now q.deadline then (s, .ok) else
-          match q.conn.bind s.conn? with
-          | none => (s.mfault s!"timeout-without-conn({key})", .other)
-          | some c =>
-            let s := s.modQuery key fun q => { q with timeouts := q.timeouts + 1 }
-            let s := s.incFailures c.srv q.usingTcp
-            let (s, _) := exec fuel (.requeue key .timeout true none false) s
-            exec fuel .processTimeouts s
-    /- ---------------------------------------------------------------- ares_check_cleanup_conns -/
-    | .cleanupConns todo =>
-      match todo with
-      | [] => (s, .ok)
-      | fd :: rest =>
-        match s.conn? fd with
-        | none => exec fuel (.cleanupConns rest) s
-        | some c =>
-          let failures := ((s.server? c.srv).map (·.failures)).getD 0
-          let doit := c.queries.isEmpty && !c.unlinked &&
-            (!s.cfg.stayopen || failures > 0 || (!c.tcp && s.cfg.udpMax > 0 && c.total ≥ s.cfg.udpMax))
-          let s := if doit then (exec fuel (.closeConn fd .ok) s).1 else s
-          exec fuel (.cleanupConns rest) s
-    /- ---------------------------------------------------------------- compound requests -/
-    | .clientStart kind tok react spec =>
-      let id := s.nextClient
-      let rd := !s.cfg.norecurse
-      if kind == "query" then
-        -- ares_query_nolock
-        let c : Client := { id := id, kind := kind, tok := tok, react := react }
-        let s := { s with clients := s.clients ++ [c], nextClient := id + 1 }
-        exec fuel (.sendNolock none false false { spec with rd := rd, edns := s.cfg.ednsFlag } (.client id) []) s
-      else
-        -- ares_search_dnsrec -> ares_search_int
-        if isOnion spec.name then
-          let (s, _) := exec fuel (.callback (.user tok) react .notfound 0 none) s
-          (s, .notfound)
-        else
-          let c : Client := { id := id, kind := kind, tok := tok, react := react, names := searchNames s.cfg spec.name,
-                              qtype := spec.qtype, qclass := spec.qclass, rd := spec.rd, edns := spec.edns }
-          let s := { s with clients := s.clients ++ [c], nextClient := id + 1 }
-          exec fuel (.searchNext id) s
-    | .searchNext id =>
-      -- ares_search_next: the request is handed to ares_send_nolock, which reports every failure
-      -- through search_callback
-      match s.client? id with
-      | none => (s.mfault s!"uaf-client({id}) in ares_search_next", .other)
-      | some c =>
-        match c.names with
-        | [] => (s, .formerr)
-        | n :: rest =>
-          let s := s.modClient id fun c => { c with names := rest, lastName := n }
-          -- a candidate whose escaped text form does not fit a DNS name cannot be duplicated
-          -- (ares_dns_record_duplicate_ex writes and re-parses it): EFORMERR through the callback
-          if nameTextLen n > 255 then
-            let (qid, s) := genQid 70000 s
-            let _ := qid
-            let (s, _) := exec fuel (.callback (.client id) [] .formerr 0 none) s
-            (s, .formerr)
-          else
-            exec fuel (.sendNolock none false false
-              { name := n, qtype := c.qtype, qclass := c.qclass, rd := c.rd, edns := c.edns } (.client id) []) s
-    | .endClient id st rec =>
-      -- end_squery: user callback, then the search state is released
-      match s.client? id with
-      | none => (s.mfault s!"uaf-client({id}) in end_squery", .other)
-      | some c =>
-        let (s, _) := exec fuel (.callback (.user c.tok) c.react st c.timeouts rec) s
-        ({ s with clients := s.clients.filter (·.id != id) }, .ok)
-    /- ---------------------------------------------------------------- ares_cancel / ares_destroy -/
-    | .cancel =>
-      let s := if s.all.isEmpty then s else
-        -- swap list heads: only queries present on entry are cancelled
-        let s := { s with listCopy := s.all :: s.listCopy, all := [] }
-        let (s, _) := exec fuel (.cancelLoop .cancelled false) s
-        { s with listCopy := s.listCopy.drop 1 }
-      let fds := (s.sortedServers.map (·.conns)).flatten
-      exec fuel (.cleanupConns fds) s
-    | .cancelLoop st fromAll =>
-      -- always take the first remaining entry of the list being walked
-      match (if fromAll then s.all.head? else (s.listCopy.head?).bind (·.head?)) with
-      | none => (s, .ok)
-      | some key =>
-        match s.query? key with
-        | none => (s.mfault s!"uaf-query({key}) in cancel/destroy walk", .other)
-        | some q =>
-          -- the query is released before its callback runs
-          let s := s.freeQuery key
-          let (s, _) := exec fuel (.callback q.owner q.react st 0 none) s
-          exec fuel (.cancelLoop st fromAll) s
-    | .destroy =>
-      -- ares_destroy walks channel->all_queries itself
-      let s := { s with destroying := true }
-      let (s, _) := exec fuel (.cancelLoop .destruction true) s
-      let fds := (s.sortedServers.map (·.conns)).flatten
-      let s := fds.foldl (fun s fd => (exec fuel (.closeConn fd .ok) s).1) s
-      ({ s with destroyed := true, destroying := false, alive := false }, .ok)
+  | fuel + 1, call, s => execBody (exec fuel) call s
 
 end Cares.Chan
